@@ -46,8 +46,8 @@ type synthChain struct {
 	n       uint64
 }
 
-func newSynth(rng *rand.Rand, seed int64, n uint64) *synthChain {
-	s := &synthChain{id: "synthnet-2", rev: 2, signers: map[string]cmttypes.PrivValidator{}, vals: map[uint64]*cmttypes.ValidatorSet{}, times: map[uint64]time.Time{}, app: map[uint64][]byte{}, n: n}
+func newSynth(rng *rand.Rand, seed int64, n uint64, rev uint64) *synthChain {
+	s := &synthChain{id: fmt.Sprintf("synthnet-%d", rev), rev: rev, signers: map[string]cmttypes.PrivValidator{}, vals: map[uint64]*cmttypes.ValidatorSet{}, times: map[uint64]time.Time{}, app: map[uint64][]byte{}, n: n}
 	for i := 0; i < 9; i++ {
 		k := ed25519.GenPrivKeyFromSecret([]byte(fmt.Sprintf("c07/%d/%d", seed, i)))
 		s.keys = append(s.keys, k)
@@ -158,7 +158,7 @@ func TestC07(t *testing.T) {
 			"candidates vary target height (past, adjacent, non-adjacent), trusted height (stored / missing), supplied trusted set, header time and block time placed at, 1ns before and 1ns after every boundary, chain id / revision, claimed validator hash; UpdateClient's verdict is compared with a reference rule evaluated on the generator's knowledge, and the store is compared after acceptance / rejection. distinct = distinct (first failing reference clause, adjacent?, boundary case) tuples")
 	rec.Require("accepted", "rejected/two-thirds", "rejected/trust-level", "rejected/client-expired", "rejected/trusted-validators-mismatch", "rejected/time-in-future", "rejected/adjacent-validators")
 	seed := mon.Seed()
-	nChains := mon.Scale(32, 800)
+	nChains := mon.Scale(48, 800)
 	perChain := mon.Scale(160, 260)
 	var wg sync.WaitGroup
 	jobs := make(chan int)
@@ -184,14 +184,15 @@ func c07Chain(rec *mon.Recorder, rng *rand.Rand, seed int64, nCand int) {
 	net := vnet.New(seed, rng, []string{"alphachain"}, 1, 2)
 	host := net.Chains[0]
 	ck := host.App.TIBCKeeper.ClientKeeper
-	s := newSynth(rng, seed, 40)
+	chains := map[uint64]*synthChain{2: newSynth(rng, seed, 40, 2)}
+	s := chains[2]
 	name := "synthnet-2"
 	tl := []ibctm.Fraction{{Numerator: 1, Denominator: 3}, {Numerator: 2, Denominator: 3}, {Numerator: 1, Denominator: 2}, {Numerator: 2, Denominator: 5}}[rng.Intn(4)]
 	period := time.Duration(1+rng.Intn(48)) * time.Hour
 	drift := time.Duration(1+rng.Intn(20)) * time.Second
 	h0 := uint64(1 + rng.Intn(3))
-	mk := func(h uint64, ts time.Time, signers map[string]bool, chainID string, vals *cmttypes.ValidatorSet) *ibctm.Header {
-		return vnet.MakeTMHeader(chainID, int64(h), ts, s.app[h], vals, s.vals[h+1], s.signers, signers)
+	mk := func(sc *synthChain, h uint64, ts time.Time, signers map[string]bool, chainID string, vals *cmttypes.ValidatorSet) *ibctm.Header {
+		return vnet.MakeTMHeader(chainID, int64(h), ts, sc.app[h], vals, sc.vals[h+1], sc.signers, signers)
 	}
 	all := func(vs *cmttypes.ValidatorSet) map[string]bool {
 		m := map[string]bool{}
@@ -200,15 +201,15 @@ func c07Chain(rec *mon.Recorder, rng *rand.Rand, seed int64, nCand int) {
 		}
 		return m
 	}
-	first := mk(h0, s.times[h0], all(s.vals[h0]), s.id, s.vals[h0])
+	first := mk(s, h0, s.times[h0], all(s.vals[h0]), s.id, s.vals[h0])
 	cs := ibctm.NewClientState(s.id, tl, period, period*2, drift, clienttypes.NewHeight(s.rev, h0), commitmenttypes.GetSDKSpecs(), commitmenttypes.MerklePrefix{KeyPrefix: []byte("tibc")}, 0)
 	base := host.Ctx().WithBlockTime(s.times[h0].Add(time.Second))
 	if err := ck.CreateClient(base, name, cs, first.ConsensusState()); err != nil {
 		rec.Inconclusive("create client: " + err.Error())
 		return
 	}
-	mc := &model.TMClient{ChainID: s.id, Revision: s.rev, TrustNum: int64(tl.Numerator), TrustDen: int64(tl.Denominator), TrustingPeriod: period, MaxClockDrift: drift,
-		LatestHeight: h0, Stored: map[uint64]model.TMStored{h0: {Time: s.times[h0], NextValsHash: string(s.vals[h0+1].Hash())}}}
+	mc := &model.TMClient{ChainName: "synthnet", TrustNum: int64(tl.Numerator), TrustDen: int64(tl.Denominator), TrustingPeriod: period, MaxClockDrift: drift,
+		Latest: model.TMKey{Rev: 2, Height: h0}, Stored: map[model.TMKey]model.TMStored{{Rev: 2, Height: h0}: {Time: s.times[h0], NextValsHash: string(s.vals[h0+1].Hash())}}}
 
 	dumpClient := func(ctx sdk.Context) string {
 		st := ck.ClientStore(ctx, name)
@@ -221,19 +222,57 @@ func c07Chain(rec *mon.Recorder, rng *rand.Rand, seed int64, nCand int) {
 		return sb.String()
 	}
 	ctx := base
+	upgradeAt := -1
+	if rng.Intn(3) == 0 {
+		upgradeAt = nCand/3 + rng.Intn(nCand/3)
+	}
 	for i := 0; i < nCand; i++ {
 		if rec.Unlisted() > 3 {
 			return
 		}
-		stored := make([]uint64, 0, len(mc.Stored))
-		for h := range mc.Stored {
-			stored = append(stored, h)
+		if i == upgradeAt {
+			// governance moves the client to the next revision of the chain (new chain id, new validator history)
+			// while states of the old revision are still stored
+			n3 := newSynth(rng, seed+1, 40, 3)
+			// the new revision starts after the old one in time
+			shift := mc.Stored[mc.Latest].Time.Sub(n3.times[1]) + time.Minute
+			for h := range n3.times {
+				n3.times[h] = n3.times[h].Add(shift)
+			}
+			chains[3] = n3
+			g0 := uint64(1 + rng.Intn(3))
+			ncs := ibctm.NewClientState(n3.id, tl, period, period*2, drift, clienttypes.NewHeight(3, g0), commitmenttypes.GetSDKSpecs(), commitmenttypes.MerklePrefix{KeyPrefix: []byte("tibc")}, 0)
+			hdr := mk(n3, g0, n3.times[g0], all(n3.vals[g0]), n3.id, n3.vals[g0])
+			uctx := ctx.WithBlockTime(n3.times[g0].Add(time.Second))
+			if err := ck.UpgradeClient(uctx, name, ncs, hdr.ConsensusState()); err != nil {
+				rec.Inconclusive("upgrade client: " + err.Error())
+				return
+			}
+			ctx = uctx
+			mc.Latest = model.TMKey{Rev: 3, Height: g0}
+			mc.Stored[mc.Latest] = model.TMStored{Time: n3.times[g0], NextValsHash: string(n3.vals[g0+1].Hash())}
+			rec.Count("revision-upgrades", 1)
 		}
-		sort.Slice(stored, func(a, b int) bool { return stored[a] < stored[b] })
-		// trusted height
-		th := stored[rng.Intn(len(stored))]
+		stored := make([]model.TMKey, 0, len(mc.Stored))
+		for k := range mc.Stored {
+			stored = append(stored, k)
+		}
+		sort.Slice(stored, func(a, b int) bool { return stored[a].Less(stored[b]) })
+		// trusted height (of any stored revision)
+		tk := stored[rng.Intn(len(stored))]
 		if rng.Intn(12) == 0 {
-			th = uint64(1 + rng.Intn(int(s.n))) // possibly missing
+			tk.Height = uint64(1 + rng.Intn(40)) // possibly missing
+		}
+		th := tk.Height
+		// the header's chain: normally the trusted state's revision, sometimes the other one
+		hrev := tk.Rev
+		if len(chains) > 1 && rng.Intn(5) == 0 {
+			hrev = 5 - tk.Rev
+		}
+		s := chains[hrev]
+		if s == nil {
+			s = chains[2]
+			hrev = 2
 		}
 		// target height
 		var H uint64
@@ -258,8 +297,11 @@ func c07Chain(rec *mon.Recorder, rng *rand.Rand, seed int64, nCand int) {
 			H = s.n
 		}
 		hdrTime := s.times[H]
-		tst, hasT := mc.Stored[th]
+		tst, hasT := mc.Stored[tk]
 		bcase := "plain"
+		if hrev != tk.Rev {
+			bcase = "cross-revision"
+		}
 		// header time placed on the trusted time
 		if hasT && rng.Intn(10) == 0 {
 			hdrTime = tst.Time.Add(time.Duration(rng.Intn(3)-1) * time.Nanosecond)
@@ -273,18 +315,24 @@ func c07Chain(rec *mon.Recorder, rng *rand.Rand, seed int64, nCand int) {
 		}
 		signers := subset(rng, vals)
 		chainID := s.id
+		chainName := "synthnet"
 		if rng.Intn(25) == 0 {
-			chainID = "synthnet-3"
+			chainID = "synthnet-7"
 			bcase = "other-revision"
 		} else if rng.Intn(25) == 0 {
-			chainID = "otherchain-2"
+			chainID = fmt.Sprintf("otherchain-%d", hrev)
+			chainName = "otherchain"
 			bcase = "other-chain"
 		}
-		hdr := mk(H, hdrTime, signers, chainID, vals)
-		hdr.TrustedHeight = clienttypes.NewHeight(s.rev, th)
-		tvals := s.vals[th+1]
-		if rng.Intn(10) == 0 {
-			tvals = s.vals[uint64(1+rng.Intn(int(s.n)))]
+		hdr := mk(s, H, hdrTime, signers, chainID, vals)
+		hdr.TrustedHeight = clienttypes.NewHeight(tk.Rev, th)
+		ts := chains[tk.Rev]
+		if ts == nil {
+			ts = s
+		}
+		tvals := ts.vals[th+1]
+		if tvals == nil || rng.Intn(10) == 0 {
+			tvals = ts.vals[uint64(1+rng.Intn(int(ts.n)))]
 			bcase = "other-trusted-set"
 		}
 		tvp, _ := tvals.ToProto()
@@ -298,8 +346,11 @@ func c07Chain(rec *mon.Recorder, rng *rand.Rand, seed int64, nCand int) {
 			bcase = "validator-set-swapped"
 		}
 		// block time
-		latest := mc.Stored[mc.LatestHeight]
+		latest := mc.Stored[mc.Latest]
 		now := hdrTime.Add(time.Duration(rng.Intn(5000)) * time.Millisecond)
+		if now.Before(ctx.BlockTime()) && rng.Intn(2) == 0 {
+			now = ctx.BlockTime().Add(time.Duration(rng.Intn(5000)) * time.Millisecond)
+		}
 		switch rng.Intn(9) {
 		case 0:
 			now = hdrTime.Add(-drift).Add(time.Duration(rng.Intn(3)-1) * time.Nanosecond)
@@ -316,12 +367,8 @@ func c07Chain(rec *mon.Recorder, rng *rand.Rand, seed int64, nCand int) {
 			now = latest.Time.Add(period).Add(time.Duration(rng.Intn(100000)) * time.Second)
 			bcase = "long-expired"
 		}
-		mh := &model.TMHeader{ChainID: chainID, Revision: clienttypes.ParseChainID(chainID), Height: H, Time: hdrTime, Vals: mvals(vals), ValsHash: string(vals.Hash()), ClaimedValsHash: claimed,
-			NextValsHash: string(s.vals[H+1].Hash()), Signers: signers, TrustedRevision: s.rev, TrustedHeight: th, TrustedVals: mvals(tvals), TrustedValsHash: string(tvals.Hash())}
-		if claimed != string(vals.Hash()) {
-			// the supplied set is `o`: the header still commits to vals; the reference sees a hash mismatch
-			mh.ClaimedValsHash = claimed
-		}
+		mh := &model.TMHeader{ChainName: chainName, Revision: clienttypes.ParseChainID(chainID), Height: H, Time: hdrTime, Vals: mvals(vals), ValsHash: string(vals.Hash()), ClaimedValsHash: claimed,
+			NextValsHash: string(s.vals[H+1].Hash()), Signers: signers, TrustedRevision: tk.Rev, TrustedHeight: th, TrustedVals: mvals(tvals), TrustedValsHash: string(tvals.Hash())}
 		want, clause := model.TMAccept(mc, mh, now)
 
 		cctx, write := ctx.WithBlockTime(now).CacheContext()
@@ -335,9 +382,9 @@ func c07Chain(rec *mon.Recorder, rng *rand.Rand, seed int64, nCand int) {
 		if !want {
 			cl = "rejected/" + clause
 		}
-		rec.Judge(cl, H == th+1, bcase, got)
+		rec.Judge(cl, H == th+1, bcase, got, len(chains))
 		if len(rec.Samples()) < 4 && (i%37 == 5) {
-			rec.Sample(map[string]any{"target_height": H, "trusted_height": th, "signers": len(signers), "validators": len(vals.Validators), "case": bcase, "now": now, "header_time": hdrTime, "reference": cl, "implementation_accepted": got})
+			rec.Sample(map[string]any{"target_height": fmt.Sprintf("%d-%d", mh.Revision, H), "trusted_height": fmt.Sprintf("%d-%d", tk.Rev, th), "signers": len(signers), "validators": len(vals.Validators), "case": bcase, "now": now, "header_time": hdrTime, "reference": cl, "implementation_accepted": got})
 		}
 		if got != want {
 			el := ""
@@ -345,8 +392,8 @@ func c07Chain(rec *mon.Recorder, rng *rand.Rand, seed int64, nCand int) {
 				el = err.Error()
 			}
 			rec.Violate("acceptance-differs-from-light-client-rule", map[string]string{"reference": cl, "got": fmt.Sprint(got), "case": bcase},
-				fmt.Sprintf("height %d trusted %d now %s header time %s signers %d/%d trust level %d/%d: implementation accepted=%v (%s), reference: %s",
-					H, th, now, hdrTime, len(signers), len(vals.Validators), tl.Numerator, tl.Denominator, got, el, cl), nil)
+				fmt.Sprintf("header %d-%d trusted %d-%d (client latest %d-%d) now %s header time %s signers %d/%d trust level %d/%d: implementation accepted=%v (%s), reference: %s",
+					mh.Revision, H, tk.Rev, th, mc.Latest.Rev, mc.Latest.Height, now, hdrTime, len(signers), len(vals.Validators), tl.Numerator, tl.Denominator, got, el, cl), nil)
 			continue
 		}
 		if !got {
@@ -356,28 +403,30 @@ func c07Chain(rec *mon.Recorder, rng *rand.Rand, seed int64, nCand int) {
 			continue
 		}
 		// accepted: stored state is the header's, latest never decreases
-		st, ok := ck.GetClientConsensusState(cctx, name, clienttypes.NewHeight(s.rev, H))
+		hk := model.TMKey{Rev: mh.Revision, Height: H}
+		st, ok := ck.GetClientConsensusState(cctx, name, clienttypes.NewHeight(hk.Rev, H))
 		tcs, _ := st.(*ibctm.ConsensusState)
 		ncs, _ := ck.GetClientState(cctx, name)
-		wantLatest := mc.LatestHeight
-		if H > wantLatest {
-			wantLatest = H
+		wantLatest := mc.Latest
+		if wantLatest.Less(hk) {
+			wantLatest = hk
 		}
+		gl := ncs.GetLatestHeight()
 		if !ok || tcs == nil || !tcs.Timestamp.Equal(hdrTime) || !bytes.Equal(tcs.Root.Hash, s.app[H]) || !bytes.Equal(tcs.NextValidatorsHash, s.vals[H+1].Hash()) ||
-			ncs.GetLatestHeight().GetRevisionHeight() != wantLatest {
-			rec.Violate("accepted-header-stored-wrongly", nil, fmt.Sprintf("height %d: stored %+v latest %s (want %d)", H, tcs, ncs.GetLatestHeight(), wantLatest), nil)
+			gl.GetRevisionHeight() != wantLatest.Height || gl.GetRevisionNumber() != wantLatest.Rev {
+			rec.Violate("accepted-header-stored-wrongly", nil, fmt.Sprintf("height %d-%d: stored %+v latest %s (want %d-%d)", hk.Rev, H, tcs, gl, wantLatest.Rev, wantLatest.Height), nil)
 			continue
 		}
-		// keep a third of the accepted updates so that the client accumulates states; prune the model like the implementation does
+		// keep a third of the accepted updates so that the client accumulates states
 		if rng.Intn(3) == 0 {
 			write()
 			ctx = ctx.WithBlockTime(now)
-			mc.Stored[H] = model.TMStored{Time: hdrTime, NextValsHash: string(s.vals[H+1].Hash())}
-			mc.LatestHeight = wantLatest
+			mc.Stored[hk] = model.TMStored{Time: hdrTime, NextValsHash: string(s.vals[H+1].Hash())}
+			mc.Latest = wantLatest
 			// re-sync the model's stored set with the real store (pruning of expired states is not part of the statement)
-			for h := range mc.Stored {
-				if _, ok := ck.GetClientConsensusState(ctx, name, clienttypes.NewHeight(s.rev, h)); !ok {
-					delete(mc.Stored, h)
+			for k := range mc.Stored {
+				if _, ok := ck.GetClientConsensusState(ctx, name, clienttypes.NewHeight(k.Rev, k.Height)); !ok {
+					delete(mc.Stored, k)
 				}
 			}
 		}
